@@ -153,7 +153,7 @@ def strip_deaths(world):
 
 
 def run(ctx):
-    run_cases(ctx, gen_cases(ctx))
+    run_cases(ctx, cw.corpus_cases(PROP) + gen_cases(ctx))
 
 
 def replay(ctx, obj):
